@@ -414,6 +414,8 @@ class Decimal(Element):
 
     @convert.register
     def _convert_decimal(self, value: decimal.Decimal):
+        if not value.is_finite():
+            raise OFXSpecError(f"'{value}' is not a finite number")
         if self.scale is not None:
             value = value.quantize(self.scale)
         return value
@@ -425,6 +427,9 @@ class Decimal(Element):
             dec = decimal.Decimal(value)
         except decimal.InvalidOperation:
             dec = decimal.Decimal(value.replace(",", "."))
+
+        if not dec.is_finite():
+            raise OFXSpecError(f"'{value}' is not a finite number")
 
         if self.scale is not None:
             dec = dec.quantize(self.scale)
@@ -445,6 +450,8 @@ class Decimal(Element):
     def _unconvert_decimal(self, value: decimal.Decimal):
         if self.scale is not None and not value.same_quantum(self.scale):
             raise ValueError(f"'{value}' doesn't match scale={self.scale}")
+        if not value.is_finite():
+            raise ValueError(f"'{value}' is not a finite number")
         return str(value)
 
     @unconvert.register
